@@ -549,11 +549,20 @@ class Facts:
     def lambdas_in(self, fn):
         return [f for f in self.functions.values() if f.parent_usr == fn.usr and f.kind == 'lambda']
 
-    def repo_functions(self, include_patterns=False):
+    def repo_functions(self, include_patterns=False, raw=False):
+        """Every function of the fact base. Unless raw=True the rules see *inlined views* (rules/inline.py): helpers
+        that no rule knows by name are spliced into their callers and are not yielded themselves, so a class-wide scan
+        attributes their code to the functions they were extracted from."""
+        import inline
         for f in self.functions.values():
             if f.tmpl == 'pattern' and not include_patterns:
                 continue
-            yield f
+            if raw:
+                yield f
+            elif inline.always_inlined(self, f):
+                continue
+            else:
+                yield inline.inlined_func(self, f)
 
     @property
     def callers(self):
